@@ -333,11 +333,28 @@ class C11:
                             pass
                         except BaseException as e:  # noqa: BLE001
                             fails.append(("type", f"dispatch of a wrong event class on {ch} raised {e!r} instead of TypeError"))
+                # one event object relayed to another channel of the same event class: stamped by that dispatch, delivered there
+                relayed: dict[tuple, Any] = {}
+                if len(chans) >= 2 and chans[0] in sent:
+                    c0 = chans[0]
+                    ev0 = sent[c0]
+                    for ch in chans[1:]:
+                        ci, k, attr = ch
+                        if sigmap[classes[ci]][attr] is sigmap[classes[c0[0]]][c0[2]] and ch in sent:
+                            try:
+                                bound[ch].dispatch(ev0)
+                            except BaseException as e:  # noqa: BLE001
+                                fails.append(("dispatch", f"re-dispatching an event object on {ch} raised {e!r}"))
+                                break
+                            if ev0.source is not insts[(ci, k)] or ev0.topic != attr:
+                                fails.append(("stamp", f"an event first dispatched on {c0} and then on {ch} carries source {ev0.source!r} topic {ev0.topic!r}"))
+                            relayed[ch] = ev0
+                            break
                 for _ in range(3):
                     await anyio.lowlevel.checkpoint()
                 tg.cancel_scope.cancel()
             for ch, sub in zip(chans, subs):
-                exp = [sent[ch]] if sub and ch in sent else []
+                exp = ([sent[ch]] if sub and ch in sent else []) + ([relayed[ch]] if sub and ch in relayed else [])
                 got = received[ch]
                 if len(got) != len(exp) or any(g is not e for g, e in zip(got, exp)):
                     desc = [next((c for c, s in sent.items() if s is g), "?") for g in got]
